@@ -667,6 +667,29 @@ def b_native(B):
             B.case(("corrupt_then_delete", where), raised and os.path.exists(ap) and open(ap, "rb").read() == orig, detail={"raised": raised, "original_exists": os.path.exists(ap)})
         finally:
             shutil.rmtree(d, ignore_errors=True)
+    # the same converter object run twice (second time forced): the per-shank files of the second run must be as valid as those of a fresh run
+    d, ap, orig = _mk("NP2.4")
+    try:
+        conv = neuropixel.NP2Converter(ap, post_check=True, compress=False, delete_original=False)
+        conv.init_params(nwindow=1200)
+        r1 = conv.process()
+        conv.init_params(nwindow=1800)
+        try:
+            r2 = conv.process(overwrite=True)
+            okf = (r1, r2) == (1, 1)
+            for sh, inf in conv.shank_info.items():
+                sra = spikeglx.Reader(inf["ap_file"], sort=False)
+                srl = spikeglx.Reader(inf["lf_file"], sort=False)
+                okf = okf and sra.type == "ap" and srl.type == "lf" and sra.shape == (3000, len(inf["chns"])) and srl.shape == (250, len(inf["chns"]))
+                sra.close()
+                srl.close()
+            det = {"returns": [r1, r2]}
+        except Exception as e:
+            okf, det = False, {"second_run_raised": repr(e)[:160]}
+        conv.sr.close()
+        B.case("same_object_forced_rerun", bool(okf) and open(ap, "rb").read() == orig, detail=det)
+    finally:
+        shutil.rmtree(d, ignore_errors=True)
     # a verification that failed, followed by an explicit delete_NP24() on the same converter object: the original must survive
     r = native_failed_check_then_delete()
     B.case("failed_check_then_delete", not r["failed"], detail=r)
@@ -713,3 +736,6 @@ def b_native(B):
 # ----------------------------------------------------------------------------- contracts of dependencies this property rests on (re-checked here)
 from pyvc.api import depends  # noqa: E402
 depends(PROPERTY, "C17", ["firstlast"])      # check_NP24 iterates the window generator under its contract
+depends(PROPERTY, "C11", ["open_int16"])      # "verified bit-identical": the reader exposes every complete frame of the original, so that the split and its verification cover them all
+depends(PROPERTY, "C03", ["metadata_split_and_restore"])      # a forced re-run ends with valid per-shank metadata: written from a deep copy, the reader's own metadata untouched
+depends(PROPERTY, "C12", ["lf_metadata"])
